@@ -13,6 +13,7 @@ from jbv import facts  # noqa: E402
 
 table = {}
 allfns = set()
+sigs = {}
 os.environ["JBV_NO_INLINE"] = "1"
 for cfg in ("default", "nodefault", "simd"):
     p = facts.load(cfg)
@@ -20,6 +21,7 @@ for cfg in ("default", "nodefault", "simd"):
         if b.kind == "Closure":
             continue
         allfns.add(path)
+        sigs.setdefault(path, [b.local_ty(0), [b.local_ty(l) for l in range(1, b.argc + 1)]])
         names = [b.local_name(l) for l in range(1, b.argc + 1)]
         if any(names):
             table.setdefault(path, names)
@@ -36,4 +38,5 @@ for cfg in ("default", "nodefault", "simd"):
     consts |= set(p.consts)
 json.dump(sorted(consts), open(os.path.join(VERIF, "jbv", "pinned_consts.json"), "w"), indent=0)
 json.dump(sorted(allfns), open(os.path.join(VERIF, "jbv", "pinned_fns.json"), "w"), indent=0)
+json.dump(sigs, open(os.path.join(VERIF, "jbv", "pinned_sigs.json"), "w"), indent=0, sort_keys=True)
 print(len(table), "functions with named parameters;", len(allfns), "pinned functions")
